@@ -302,7 +302,8 @@ def meaning(font):
     """Everything C11 names, keyed by glyph name."""
     m = {"cmap": {f"{cp:04x}": g for cp, g in sorted(font.getBestCmap().items())},
          "hmtx": dict(sorted(font["hmtx"].metrics.items())),
-         "glyf": {g: (list(map(tuple, font["glyf"][g].coordinates)) if font["glyf"][g].numberOfContours > 0 else []) for g in font.getGlyphOrder()}}
+         "glyf": ({g: (list(map(tuple, font["glyf"][g].coordinates)) if font["glyf"][g].numberOfContours > 0 else []) for g in font.getGlyphOrder()}
+                  if "glyf" in font else {})}
     for tag in ("GSUB", "GPOS", "GDEF"):
         if tag in font:
             m[tag] = dump(font[tag].table)
@@ -373,6 +374,77 @@ REQUIRED = {("SinglePos", 1), ("SinglePos", 2), ("PairPos", 1), ("PairPos", 2), 
             ("ContextPos", 1), ("ContextPos", 2), ("ContextPos", 3), ("ChainContextSubst", 1), ("ChainContextSubst", 2),
             ("ChainContextSubst", 3), ("ChainContextPos", 1), ("ChainContextPos", 2), ("ChainContextPos", 3),
             ("ReverseChainSingleSubst", 1), ("AttachList", None), ("LigCaretList", None), ("MarkGlyphSetsDef", None)}
+
+
+def _name_facts(font):
+    from fontTools.pens.recordingPen import RecordingPen
+
+    gs = font.getGlyphSet()
+    facts = {"cmap": dict(font.getBestCmap()), "hmtx": {g: tuple(font["hmtx"][g]) for g in font.getGlyphOrder()}, "outline": {}}
+    for g in font.getGlyphOrder():
+        pen = RecordingPen()
+        gs[g].draw(pen)
+        facts["outline"][g] = repr(pen.value)
+    if "COLR" in font:
+        colr = font["COLR"]
+        if colr.version == 0:
+            facts["colr"] = {g: [(l.name, l.colorID) for l in ls] for g, ls in colr.ColorLayers.items()}
+        else:
+            from fontTools.misc.testTools import getXML
+
+            facts["colr"] = {r.BaseGlyph: "\n".join(getXML(r.Paint.toXML, font)) for r in colr.table.BaseGlyphList.BaseGlyphPaintRecord}
+    facts["layout"] = meaning(font)
+    return facts
+
+
+def flavours(chk, n_perms):
+    from fontTools.ttLib import TTFont
+    from nanoemoji import reorder_glyphs
+
+    from . import build, c04, scenarios as S
+
+    for fi, fmt in enumerate(["cff_colr_1", "cff2_colr_1", "glyf_colr_1", "cff_colr_0", "glyf"]):
+        cfg = build.base_config(color_format=fmt, keep_glyph_names=True, clip_to_viewbox=False)
+        vb = (0, 0, 100, 100)
+        srcs = [build.Src(S.filename_for(S.CODEPOINTS[i]), c04.svg_for(i, vb), None) for i in range(4)]
+        try:
+            _, built = build.build(cfg, srcs, reload=False)
+            data = build.font_bytes(built)
+        except Exception as e:
+            raise MachineryError(f"cannot build the {fmt} font to reorder: {e}")
+        base = TTFont(io.BytesIO(data), lazy=False)
+        want = _name_facts(base)
+        order0 = base.getGlyphOrder()
+        for k in range(n_perms):
+            r = common.rng("C11", "flavour", fmt, k)
+            rest = order0[1:]
+            r.shuffle(rest)
+            order = [order0[0]] + rest
+            font = TTFont(io.BytesIO(data), lazy=False)
+            for tag in font.keys():
+                font[tag]
+            replay = {"kind": "flavour", "format": fmt, "new_order": order}
+            chk.case(key=("flavour", fmt, tuple(order)), nontrivial=order != order0)
+            chk.traces_validated += 1
+            try:
+                reorder_glyphs.reorder_glyphs(font, order)
+                buf = io.BytesIO()
+                font.save(buf)
+                again = TTFont(io.BytesIO(buf.getvalue()), lazy=False)
+            except Exception as e:
+                chk.violation(f"{fmt}: reorder_glyphs/save fails for {order}: {type(e).__name__}: {str(e)[:160]}", replay)
+                continue
+            if again.getGlyphOrder() != order:
+                chk.violation(f"{fmt}: glyph order after reorder and reload is {again.getGlyphOrder()}, asked for {order}", replay)
+                continue
+            got = _name_facts(again)
+            for what in want:
+                if got.get(what) != want[what]:
+                    chk.violation(f"{fmt}: {what} by glyph name changed under the permutation {order}: {_first_diff(want[what], got.get(what))}", replay)
+                    break
+            bad = coverages_sorted(again)
+            if bad:
+                chk.violation(f"{fmt}: coverage not in increasing glyph-id order in the saved binary: {bad[:2]}", replay)
 
 
 def run(chk):
@@ -450,6 +522,9 @@ def run(chk):
         bad = coverages_sorted(again)
         if bad:
             chk.violation(f"coverage not in increasing glyph-id order in the saved binary: {bad[:2]}", replay)
+    # the same on fonts the compiler itself writes, in every outline flavour (glyf, CFF, CFF2): outlines, metrics, character
+    # map, colour records and the ccmp ligatures by glyph NAME before and after
+    flavours(chk, 4 if quick else 40)
     chk.sample({"glyphs": GLYPHS, "permutation": perms[0]})
     chk.assumptions += ["fontTools decompilation of the reloaded binary is the reference reader"]
 
